@@ -246,6 +246,13 @@ class Algebra:
                 s = Fraction(math.isqrt(c.numerator), 1) / Fraction(math.isqrt(c.denominator), 1) if c.denominator else None
                 if s is not None and s * s == c:
                     return Rat(Poly.const(s))
+        if len(r.n.t) == 1:
+            (m, c), = r.n.t.items()
+            if c > 0 and all(e % 2 == 0 for (_, e) in m):
+                sn, sd = math.isqrt(c.numerator), math.isqrt(c.denominator)
+                if sn * sn == c.numerator and sd * sd == c.denominator:
+                    # monomial perfect square; atoms under a square root are taken non-negative (recorded by callers)
+                    return Rat(Poly({tuple((k, e // 2) for (k, e) in m): Fraction(sn, sd)}))
         name = f"sqrt[{r.n!r}]"
         self.rules[name] = r.n
         return Rat(Poly.atom(name))
@@ -311,7 +318,7 @@ class Algebra:
         if isinstance(e, ast.Call):
             d = dotted(e.func) or ""
             last = d.split(".")[-1]
-            if last in ("sqrt",) and len(e.args) == 1:
+            if last in ("sqrt", "safe_sqrt") and len(e.args) == 1:
                 return self.sqrt(self._lower(e.args[0]))
             if last == "square" and len(e.args) == 1:
                 v = self._lower(e.args[0])
